@@ -864,17 +864,29 @@ func runBench(c Case) lib.Result {
 	for _, o := range c.Ops {
 		switch o.Op {
 		case "start":
+			before, _ := filepath.Glob(filepath.Join(dir, "*", "*"))
 			err := wc("START", o)
 			terms = append(terms, fmt.Sprintf("bo (BStart %s %s %s) %s", lib.B(o.T22), lib.B(o.T3), lib.B(o.TOFF), bret(err)))
 			calls = append(calls, bcall{Op: "start", Ret: bret(err)})
 			if err == nil && !active {
 				active = true
 				paused = false
-				m, _ := filepath.Glob(filepath.Join(dir, "*", fmt.Sprintf("%04d", nStarts)))
-				if len(m) != 1 {
-					panic(fmt.Sprintf("cannot find the directory of writing cycle %d under %s", nStarts, dir))
+				// the directory this START made = the one that was not there before (independent of the date in its name)
+				after, _ := filepath.Glob(filepath.Join(dir, "*", "*"))
+				had := map[string]bool{}
+				for _, d := range before {
+					had[d] = true
 				}
-				cycleDir = m[0]
+				var fresh []string
+				for _, d := range after {
+					if !had[d] {
+						fresh = append(fresh, d)
+					}
+				}
+				if len(fresh) != 1 {
+					panic(fmt.Sprintf("cannot find the directory of writing cycle %d under %s: %v", nStarts, dir, fresh))
+				}
+				cycleDir = fresh[0]
 				nStarts++
 				tags[fmt.Sprintf("start-22:%v-3:%v-off:%v", o.T22, o.T3, o.TOFF)] = true
 				if nStarts > 1 {
